@@ -511,12 +511,14 @@ Proof.
       try (match goal with |- context [lower_shift bops ?l] => exact (Hsh l) end).
     + (* && *)
       scall He as xw E1 vxw EB1 Hxw HE1. sbindn sim_one_wire as x0 vx0 Hx0. unf. sbindn sim_peek as Pb ob HPb.
-      scall He as yw E2 vyw EB2 Hyw HE2. sbindn sim_one_wire as y0 vy0 Hy0. sbindn sim_peek as Pa oa HPa.
+      scall He as yw E2 vyw EB2 Hyw HE2. sbindn sim_one_wire as y0 vy0 Hy0.
+      sbindn sim_mux_envs as E3 EB3 HE3. sbindn sim_peek as Pa oa HPa.
       sbindn sim_mux_panic as Pm om HPm. sbindn sim_replace as Pu ou HPu. sbindn sim_and as r vr Hr.
       apply sim_ret; [assumption|]. split; [constructor; [assumption|constructor]|assumption].
     + (* || *)
       scall He as xw E1 vxw EB1 Hxw HE1. sbindn sim_one_wire as x0 vx0 Hx0. unf. sbindn sim_peek as Pb ob HPb.
-      scall He as yw E2 vyw EB2 Hyw HE2. sbindn sim_one_wire as y0 vy0 Hy0. sbindn sim_peek as Pa oa HPa.
+      scall He as yw E2 vyw EB2 Hyw HE2. sbindn sim_one_wire as y0 vy0 Hy0.
+      sbindn sim_mux_envs as E3 EB3 HE3. sbindn sim_peek as Pa oa HPa.
       sbindn sim_mux_panic as Pm om HPm. sbindn sim_replace as Pu ou HPu. sbindn sim_or as r vr Hr.
       apply sim_ret; [assumption|]. split; [constructor; [assumption|constructor]|assumption].
   - (* block *)
